@@ -1016,6 +1016,9 @@ def run_real(case):
     ins = [a for a in case['args'] if a['role'] == 'in']
     res = {}
     modes = ['fwd', 'rev'] if o.get('both_modes') else [o.get('mode', 'fwd')]
+    # OpenMDAO's sparsity sampling draws its perturbations from the global NumPy generator
+    import hashlib
+    np.random.seed(int(hashlib.sha1(canon(case).encode()).hexdigest()[:8], 16))
     for mi, mode in enumerate(modes):
         stage = 'build'
         try:
@@ -1319,6 +1322,26 @@ def sparse_pairs(case):
     return sum(1 for of, wrt in _decl_pairs(case) if _is_elementwise_diag(case, of, wrt))
 
 
+def coloring_lost_entries(case, impl):
+    """The sparsity stored in the component's coloring misses an entry that is nonzero in the exact
+    jacobian at the evaluation point (OpenMDAO layout: rows = returns, columns = outputs then
+    inputs for implicit components, inputs for explicit ones)."""
+    col = impl.get('coloring')
+    if not col or 'error' in impl:
+        return False
+    try:
+        _, jac = oracle_eval(case)
+    except Reject:
+        return False
+    ins = [a for a in case['args'] if a['role'] == 'in']
+    cols = ([r['name'] for r in case['rets']] if case['kind'] in ('ifc', 'jic') else []) + \
+        [a['name'] for a in ins]
+    J = np.vstack([np.hstack([jac[(r['name'], c)] for c in cols]) for r in case['rets']])
+    nz = {(int(r), int(c)) for r, c in col['nz']}
+    rr, cc = np.nonzero(np.abs(J) > 1e-12)
+    return any((int(r), int(c)) not in nz for r, c in zip(rr, cc))
+
+
 def msg_key(msg):
     import re
     return re.sub(r'\d+', 'N', (msg or ''))[:72]
@@ -1361,7 +1384,11 @@ class C34(Property):
             "user linearize; solve_nonlinear callback), or as a generated JaxExplicitComponent / "
             "JaxImplicitComponent subclass (compute_primal; matrix_free; use_jit; self.options static); "
             "partials declared '*','*', per dependent pair, with rows/cols for elementwise pairs, or "
-            "(jax components) not at all; declare_coloring on/off; problem mode fwd, rev or both. "
+            "(jax components) not at all; declare_coloring on/off; problem mode fwd, rev or both. A "
+            "two-point family heads the stream: components with automatic sparsity (no declared "
+            "partials, or declare_coloring) are first linearized at a point where states / inputs are "
+            "exactly 0.0 (a coupling term state*g(inputs) makes partials that vanish there), then at a "
+            "generic point; partials and totals are compared with the exact ones at both points. "
             "Observed through get_val / residuals / check_partials()['J_fwd'] / compute_totals. "
             "Compared with NumPy execution of the same source text, with the harness's own dual-number "
             "derivative of the expression tree (tolerance 1e-9 relative; 2e-4 for method='fd'), fwd "
@@ -1458,7 +1485,7 @@ class C34(Property):
         return None
 
     def cases(self, rng, tier):
-        n = 84 if tier == 'quick' else 1500
+        n = 76 if tier == 'quick' else 1500
         out = []
         forced = [
             ('ifc', {'permute_states': True}),
@@ -1522,6 +1549,8 @@ class C34(Property):
                 'mode_mismatch': any(m != best_direction(case) for m in
                                      (['fwd', 'rev'] if o.get('both_modes') else [o.get('mode', 'fwd')])),
                 'T_on_expr': has_T_on_expr(case), 'two_point': 'vals0' in case,
+                'coloring_lost_entries': coloring_lost_entries(case, impl),
+                'func_comp': case['kind'] in ('efc', 'ifc'),
                 'class': failure.get('class'), 'error': impl.get('error'),
                 'msg_key': msg_key(impl.get('msg')) if 'error' in impl else None}
 
